@@ -306,6 +306,8 @@ CliRefusalProps(why) ==
   ELSE IF why \in {"signature_length", "signature_non_hex", "signature_v", "signature_scalar_range"} THEN {"C15"}
   ELSE IF why \in {"typeddata_domain_type", "typeddata_no_domain_type"} THEN {"C20"}
   ELSE IF why = "hex_text" THEN {"C19"}
+  \* usage errors proper (Args.tla): the design, no listed property - a divergence is recorded, never reported as a violation
+  ELSE IF why \in {"usage_" \o u : u \in UsageReasons} THEN {}
   ELSE IF why \in {"typeddata_int_range", "typeddata_uint_range", "typeddata_uint_negative", "typeddata_bytesN_len",
                    "typeddata_fixed_array_len", "typeddata_missing_member", "typeddata_extra_member",
                    "typeddata_undefined_type", "typeddata_wrong_kind", "typeddata_malformed", "typeddata_fraction",
